@@ -12,6 +12,8 @@ CONSTANTS
   MaxAdds = 3
   AskSet = {"basic", "help", "specs", "sub", "topo", "walk"}
   KeyMode = "any"
+  WalkMech = "bfs"
+  Prefix <- NoPrefix
 INVARIANT TypeOK
 INVARIANT RegistryInverse
 INVARIANT RegistryIsDeclared
@@ -22,5 +24,6 @@ INVARIANT PeelLaws
 INVARIANT BfsLaws
 INVARIANT HelperLaws
 INVARIANT SpecLaws
+INVARIANT CodeFormDeviatesOnlyInClasses
 CONSTRAINT Emit
 CHECK_DEADLOCK FALSE
